@@ -5062,6 +5062,9 @@ InMuWait(u) == \E i \in 1..Len(stack[u]) : stack[u][i].procedure = "mu_wait"
 LegitAsleep(u) == InMuWait(u) /\ c[u] # 0 /\ ~CondTrue(c[u], data)
 DoneOrLegit == \A u \in Threads : pc[u] = "Done" \/ LegitAsleep(u)
 NoStuck == (~ENABLED NextU) => DoneOrLegit
+\* liveness (checked under FairSpecU on programs in which everybody is meant to finish): no livelock in the spin loops,
+\* every lock / wait call eventually returns
+\* (the translation's own `Termination` is the property)
 \* ---- C04 / C11 : a wait that consumed a wake-up reports it as one ----
 AtClient(u) == pc[u] = "c0"
 PickedReportsWake == \A u \in Threads : (AtClient(u) /\ picked[u] /\ ret[u] # -1) => ret[u] = 0
